@@ -380,7 +380,7 @@ type GCase struct {
 	BaseReg  string `json:"baseReg,omitempty"` // other registry for the mismatch check
 }
 
-var registries = []string{"localhost:5000", "example.com", "reg-a.test", "127.0.0.1:8080", "[::1]:5000", "[2001:db8::1]", "docker.io", "a", "REG.Example.COM", "x_y.z"}
+var registries = []string{"localhost:5000", "example.com", "reg-a.test", "127.0.0.1:8080", "[::1]:5000", "[2001:db8::1]", "docker.io", "registry-1.docker.io", "a", "REG.Example.COM", "x_y.z"}
 var repoParts = []string{"a", "lib", "foo-bar", "foo--bar", "a.b", "a_b", "a__b", "0", "9z"}
 var tags = []string{"latest", "v1.0.0", "_x", "A", "a.b-c_d", strings.Repeat("t", 128), "0"}
 var editChars = []string{"a", "A", "0", ".", "-", "_", ":", "@", "/", "[", "]", "%", " ", "\n", "?", "#", "\\", "é"}
@@ -547,6 +547,15 @@ func runG(c GCase) (res vt.Result, fail *vt.Fail) {
 					return res, vt.Failf("C20/repository-accepts-other-registry", "Repository(%s).ParseReference(%q) = %v", fq, other, err)
 				}
 			}
+		}
+		// docker.io and registry-1.docker.io name the same endpoint but are different
+		// registries as far as references go
+		if alias := map[string]string{"docker.io": "registry-1.docker.io", "registry-1.docker.io": "docker.io"}[want.Registry]; alias != "" {
+			other := alias + "/" + want.Repository + refSuffix(want.Reference)
+			if _, err := repo.ParseReference(other); !errors.Is(err, errdef.ErrInvalidReference) {
+				return res, vt.Failf("C20/repository-accepts-other-registry", "Repository(%s).ParseReference(%q) = %v", fq, other, err)
+			}
+			res.Classes = append(res.Classes, "docker-hub-alias-checked")
 		}
 		otherRepo := want.Registry + "/" + want.Repository + "/x" + refSuffix(want.Reference)
 		if _, err := repo.ParseReference(otherRepo); !errors.Is(err, errdef.ErrInvalidReference) {
